@@ -336,6 +336,8 @@ def run(prog, rep, tier):
         if lb is None:
             continue
         rep.fn(lb)
+        from ..inline import inlined_body
+        lb = inlined_body(prog, lb)      # the "new cipher + drop the cached data" prologue may be a helper shared by both loaders
         rte = [b for b in lb.calls() if b.term.cmethod == 'read_to_end' and b.term.ctrait == 'std::io::Read']
         inval = []
         for b in lb.calls():
@@ -349,7 +351,8 @@ def run(prog, rep, tier):
             for i, st in enumerate(bl.stmts):
                 if st.kind == 'assign' and place_fields(st.place)[-1:] == ['chunk_cache'] and not bl.cleanup:
                     inval.append(bl.idx)
-        ok = len(rte) == 1 and any(lb.dominates(x, rte[0].idx) and x != rte[0].idx for x in inval)
+        # every path (variant-tracked: an Err of the prologue leaves through `?`) to the chunk read passes one of the emptying sites
+        ok = len(rte) == 1 and bool(inval) and rte[0].idx not in inval and rte[0].idx not in reachable_vs(lb, 0, removed_blocks=inval)
         rep.ob('R03.6', ok, 'R03.6|%s|cache-emptied-before-chunk-read' % lb.nkey, 'chunk_cache is emptied (clear / mem::take / reassignment) before the next chunk is read' if ok else
                'the previous chunk stays in chunk_cache while the next one is read: if that load fails, the cache and the chunk counter disagree and a later seek within '
                '"the current chunk" serves stale plaintext', lb.loc(rte[0].idx) if rte else lb.loc())
